@@ -280,13 +280,16 @@ theorem discardEpoch_bal {s s' : St} {e a b : Nat} (h : discardEpoch s e a b = .
     have ho : outstandingAll { s with bytes := bytes } = outstandingAll s := rfl
     rw [hg, ho] at hsp
     simp only [outstanding] at hsp
-    unfold discardReset
+    have kb : Bal (setSp { s with bytes := bytes } e { getSp s e with sent := [], tl := none, lt := none }) := by
+      unfold Bal at *
+      rw [setSp_bytes]
+      simp only
+      omega
+    unfold discardReset markDiscarded
     simp only
-    apply bal_of_eq (s := setSp { s with bytes := bytes } e { getSp s e with sent := [], tl := none, lt := none }) rfl rfl rfl rfl
-    unfold Bal at *
-    rw [setSp_bytes]
-    simp only
-    omega
+    split
+    · exact bal_of_eq (s := setSp { s with bytes := bytes } e { getSp s e with sent := [], tl := none, lt := none }) rfl rfl rfl rfl kb
+    · split <;> exact bal_of_eq rfl rfl rfl rfl kb
 
 theorem onPktSent_bal {s s' : St} {i : Inp} {e pn : Nat} {elic infl : Bool} {size : Nat}
     (h : onPktSent s i e pn elic infl size = .ok s') (hb : Bal s) : Bal s' := by
